@@ -40,6 +40,10 @@ theorem exec_not_special : containsAny genFeeCfg.special (lowerUrl execUrl) = fa
 /-- the commission decorator recurses into authz.MsgExec  [fails on the pinned tree: F9] -/
 theorem commission_unwraps_exec : Sif.Generated.Ante.commissionUnwrapsExec = some true := by decide
 
+/-- (re)delegations are judged against the stake as it will be when they execute: the amounts admitted
+    earlier in the same transaction are added per validator and in total  [fails without the F23 repair] -/
+theorem commission_cumulative : Sif.Generated.Ante.commissionCumulative = some true := by decide
+
 /-- its type switch still has the four staking cases -/
 theorem commission_cases_present :
     ["stakingtypes.MsgCreateValidator", "stakingtypes.MsgEditValidator", "stakingtypes.MsgDelegate",
@@ -82,66 +86,81 @@ theorem fee_floor_each (propFee : Int) (tx : Tx) (hp : 0 ≤ propFee) (hf : fees
 
 theorem cap_hundredths : (100 : Int) ∣ genComCfg.maxVotingPower := by decide
 
-/-- **staking rules.**  If `ValidateMinCommissionDecorator` lets a transaction through, then every
-    message of it, however deeply wrapped, satisfies: commission of a created/edited validator ≥ the
-    minimum; a (re)delegation leaves the target validator's exact share
-    (tokens + amount) / (total [+ amount]) strictly below the cap (as an integer inequality — no
-    rounding slack: the sdk.Dec `Quo` then `Mul(100)` arithmetic is proved not to let 6.6 % through). -/
+theorem cap_nonneg : 0 ≤ genComCfg.maxVotingPower := by decide
+
+/-- **staking rules.**  If `ValidateMinCommissionDecorator` lets a transaction through, then, over
+    every message of it however deeply wrapped, in execution order: commission of a created/edited
+    validator ≥ the minimum; every (re)delegation, judged against the stake AS IT WILL BE WHEN IT
+    EXECUTES (the state the transaction starts from plus what its earlier messages add), leaves the
+    target's exact share strictly below the cap; and after the whole transaction every validator
+    that received stake through it is strictly below the cap (exact integer inequalities — the
+    sdk.Dec `Quo` then `Mul(100)` rounding is proved not to let 6.6 % through). -/
 theorem staking_rules (env : StakeEnv) (ms : List Msg) (he : envValid env = true)
     (ha : amountsValid ms = true) (h : comDecide genComCfg env ms = .ok true) :
     stakingOK true docMinCommission docMaxVotingPower env ms = true := by
   have hu : genComCfg.unwrap = true := by simp [genComCfg, commission_unwraps_exec]
-  have := staking_generic hu cap_hundredths env ms he ha h
+  have hcu : genComCfg.cumulative = true := by simp [genComCfg, commission_cumulative]
+  have := staking_generic hu hcu cap_hundredths cap_nonneg env ms he ha h
   have hc : genComCfg.minCommission = docMinCommission := by simp [genComCfg, constants_as_documented.1]
   have hm : genComCfg.maxVotingPower = docMaxVotingPower := by simp [genComCfg, constants_as_documented.2]
   rw [hc, hm] at this
-  simp only [stakingOK, Bool.not_true, Bool.false_or]
-  exact List.all_eq_true.mpr this
+  exact this
+
+theorem stakingOK_parts {env : StakeEnv} {ms : List Msg}
+    (h : stakingOK true docMinCommission docMaxVotingPower env ms = true) :
+    (∀ l ∈ leavesList ms, commissionOK docMinCommission l.body = true) ∧
+    seqCapOK docMaxVotingPower env Pending.empty (leavesList ms) = true ∧
+    endOK docMaxVotingPower env (finalPending env Pending.empty (leavesList ms)) = true := by
+  simp only [stakingOK, Bool.not_true, Bool.false_or, Bool.and_eq_true] at h
+  exact ⟨List.all_eq_true.mp h.1.1, h.1.2, h.2⟩
 
 /-- **commission_floor** (create): no accepted transaction contains, at any depth, a
     MsgCreateValidator with a commission rate below 5 %. -/
 theorem commission_floor (env : StakeEnv) (ms : List Msg) (he : envValid env = true)
     (ha : amountsValid ms = true) (h : comDecide genComCfg env ms = .ok true)
     (url : String) (r : Int) (hl : ⟨url, .createVal r⟩ ∈ leavesList ms) : docMinCommission ≤ r := by
-  have := staking_rules env ms he ha h
-  simp only [stakingOK, Bool.not_true, Bool.false_or] at this
-  have := (List.all_eq_true.mp this) _ hl
-  simpa [bodyOK] using this
+  have := (stakingOK_parts (staking_rules env ms he ha h)).1 _ hl
+  simpa [commissionOK] using this
 
 /-- **commission_floor** (edit) -/
 theorem commission_floor_edit (env : StakeEnv) (ms : List Msg) (he : envValid env = true)
     (ha : amountsValid ms = true) (h : comDecide genComCfg env ms = .ok true)
     (url : String) (r : Int) (hl : ⟨url, .editVal (some r)⟩ ∈ leavesList ms) : docMinCommission ≤ r := by
-  have := staking_rules env ms he ha h
-  simp only [stakingOK, Bool.not_true, Bool.false_or] at this
-  have := (List.all_eq_true.mp this) _ hl
-  simpa [bodyOK] using this
+  have := (stakingOK_parts (staking_rules env ms he ha h)).1 _ hl
+  simpa [commissionOK] using this
 
-/-- **power_cap** (delegate): for every MsgDelegate of an accepted transaction, at any depth, to a
-    validator holding `tok` of `env.total`:  (tok + amt) / (total + amt) < 6.6 %, exactly:
-    1000·(tok + amt) < 66·(total + amt). -/
+/-- **power_cap** (cumulative, F23): after an accepted transaction, every validator `v` that any of
+    its messages — at any depth, in any number — delegated or redelegated to, holding `tok` before,
+    ends strictly below 6.6 % of the bonded-plus-unbonding stake:
+    1000·(tok + everything the transaction adds to v) < 66·(total + everything it newly delegates). -/
 theorem power_cap (env : StakeEnv) (ms : List Msg) (he : envValid env = true)
     (ha : amountsValid ms = true) (h : comDecide genComCfg env ms = .ok true)
-    (url v : String) (amt tok : Int) (hl : ⟨url, .delegate v amt⟩ ∈ leavesList ms)
-    (ht : env.tokens v = some tok) : 1000 * (tok + amt) < 66 * (env.total + amt) := by
-  have := staking_rules env ms he ha h
-  simp only [stakingOK, Bool.not_true, Bool.false_or] at this
-  have := (List.all_eq_true.mp this) _ hl
-  simp only [bodyOK, ht, shareBelow, docMaxVotingPower, Dec.P] at this
+    (v : String) (a tok : Int)
+    (hv : (v, a) ∈ (finalPending env Pending.empty (leavesList ms)).byVal) (ht : env.tokens v = some tok) :
+    1000 * (tok + (finalPending env Pending.empty (leavesList ms)).get v) <
+      66 * (env.total + (finalPending env Pending.empty (leavesList ms)).total) := by
+  have hend := (stakingOK_parts (staking_rules env ms he ha h)).2.2
+  have := (List.all_eq_true.mp hend) (v, a) hv
+  simp only [ht, shareBelow, docMaxVotingPower, Dec.P] at this
   norm_num at this
   omega
 
-/-- **power_cap** (redelegate): (tok_dst + amt) / total < 6.6 % (amt counted as 0 for a
-    self-redelegation, which staking refuses anyway). -/
-theorem power_cap_redelegate (env : StakeEnv) (ms : List Msg) (he : envValid env = true)
-    (ha : amountsValid ms = true) (h : comDecide genComCfg env ms = .ok true)
-    (url src dst : String) (amt tok : Int) (hl : ⟨url, .redelegate src dst amt⟩ ∈ leavesList ms)
-    (ht : env.tokens dst = some tok) :
-    1000 * (tok + (if src = dst then 0 else amt)) < 66 * env.total := by
-  have := staking_rules env ms he ha h
-  simp only [stakingOK, Bool.not_true, Bool.false_or] at this
-  have := (List.all_eq_true.mp this) _ hl
-  simp only [bodyOK, ht, shareBelow, docMaxVotingPower, Dec.P] at this
+/-- **power_cap** (each message, in order): every (re)delegation is below the cap against the stake
+    as it will be when it executes -/
+theorem power_cap_each (env : StakeEnv) (ms : List Msg) (he : envValid env = true)
+    (ha : amountsValid ms = true) (h : comDecide genComCfg env ms = .ok true) :
+    seqCapOK docMaxVotingPower env Pending.empty (leavesList ms) = true :=
+  (stakingOK_parts (staking_rules env ms he ha h)).2.1
+
+/-- the single-delegation instance: (tok + amt) / (total + amt) < 6.6 % -/
+theorem power_cap_single (env : StakeEnv) (url v : String) (amt tok : Int) (he : envValid env = true) (hamt : 0 ≤ amt)
+    (h : comDecide genComCfg env [.leaf ⟨url, .delegate v amt⟩] = .ok true) (ht : env.tokens v = some tok) :
+    1000 * (tok + amt) < 66 * (env.total + amt) := by
+  have ha : amountsValid [.leaf ⟨url, .delegate v amt⟩] = true := by
+    simp [amountsValid, leavesList, Msg.leaves, bodyAmountsValid, hamt]
+  have := power_cap_each env _ he ha h
+  simp only [leavesList, Msg.leaves, List.append_nil, seqCapOK, capOK, ht, Bool.and_true, Pending.empty, Pending.get,
+    List.filter_nil, List.map_nil, List.sum_nil, Int.zero_add, shareBelow, docMaxVotingPower, Dec.P] at this
   norm_num at this
   omega
 
@@ -173,6 +192,14 @@ example : envValid exEnv = true ∧ amountsValid exMsgs = true ∧ comDecide gen
 /-- 343 more and the cap bites, however deep the wrapper (1343·1000 ≥ 66·20343) -/
 example : comDecide genComCfg exEnv
     [.exec [.exec [.leaf ⟨"/cosmos.staking.v1beta1.MsgDelegate", .delegate "v3" 343⟩]]] = .ok false := by
+  decide +kernel
+
+/-- F23: two delegations of 172 each to one validator, one of them wrapped (1344·1000 ≥ 66·20344) are refused
+    together, although each alone (1172·1000 < 66·20172) passes -/
+example : comDecide genComCfg exEnv
+    [.exec [.leaf ⟨"/cosmos.staking.v1beta1.MsgDelegate", .delegate "v3" 172⟩],
+     .leaf ⟨"/cosmos.staking.v1beta1.MsgDelegate", .delegate "v3" 172⟩] = .ok false ∧
+    comDecide genComCfg exEnv [.leaf ⟨"/cosmos.staking.v1beta1.MsgDelegate", .delegate "v3" 172⟩] = .ok true := by
   decide +kernel
 
 /-! ### the pinned tree's three defects, as decided negative witnesses on its (hand-copied) table -/
